@@ -1076,6 +1076,48 @@ def prefix_cmd_family(seed, n):
 
 
 
+# ---------------------------------------------------------------- batteries
+def battery_family(seed, n, maxlen=3, budget=6000):
+    """`verbose_and_quiet_by_number` / `verbose_by_slice` (two neighbouring repeated flags read as one number) among other
+    items and `cargo_helper` (the cargo subcommand's name may lead the line) - engine CmdLine"""
+    rnd = random.Random(seed)
+    out = []
+    for i in range(n):
+        v, q = rf("bv", "many", "-v", "--verbose"), rf("bq", "many", "-q", "--quiet")
+        if i % 3 == 2:
+            v["battery"] = {"k": "slice", "offset": rnd.choice([0, 1, 2]), "min": 0, "max": 3}
+        else:
+            lo = rnd.choice([-2, -1, 0])
+            v["battery"] = {"k": "vq", "offset": rnd.choice([-1, 0, 1, 2]), "min": lo, "max": lo + rnd.choice([1, 2, 3])}
+        others = [sw("o1", "-a", "--all"), ar("o2", "opt", "str", "-n", "--name"), rf("o3", "count", "-c")]
+        rnd.shuffle(others)
+        k = i % 4
+        named = [v, q] if k == 0 else [others[0], v, q] if k == 1 else [v, q, others[0]] if k == 2 else []
+        tail = [NOTAIL, postail(pos("p0", "opt")), postail(pos("p0", "many")), cmdtail([cmd("pretty", level([sw("s0", "-s")], NOTAIL))], optional=True)][(i // 2) % 4]
+        lvl = level(named if named else [others[0], others[1]], tail, version=(i % 5 == 0))
+        if k == 3 or i % 2:
+            lvl["cargo"] = "pretty"
+        d = mkdef(f"bat{seed}_{i}", lvl, maxlen=maxlen, extras=("dd", "unk") if i % 2 else ("help",), spells=("sep", "eq"),
+                  words=("pretty", "x"), clusters=(k != 3 and i % 2 == 0))
+        trim_to_budget(d, budget)
+        out.append(d)
+    return out
+
+
+def toggle_family(seed, n, maxlen=3, budget=4000):
+    """`toggle_flag`: the last of two required flags decides - engine GroupLine"""
+    out = []
+    for i in range(n):
+        g = altf("g0", "many", branch(rf("t0", "one", "--on", "-o")), branch(rf("t1", "one", "--off")))
+        g["battery"] = {"k": "toggle"}
+        named = [g] if i % 3 == 0 else [sw("o1", "-v"), g] if i % 3 == 1 else [g, ar("o2", "opt", "str", "--name")]
+        d = mkdef(f"tog{seed}_{i}", level(named, NOTAIL if i % 2 else postail(pos("p0", "opt"))), maxlen=maxlen, extras=("unk",),
+                  spells=("sep",), words=("x",))
+        galpha_trim(d, budget)
+        out.append(d)
+    return out
+
+
 # ---------------------------------------------------------------- help / documentation (C12, C16)
 def more(it, rnd):
     """a second paragraph for a help text (`help_more`) and cut points (character offsets into first + blank line + second)
